@@ -4,6 +4,7 @@ from common import *
 import kernel, p_C02
 
 COQ_PROPS = 'props/C01.v'
+COQ_PROPS_EXTRA = ['props/C03.v']     # the complex-value facts (assemblers, + - * / bodies, entire functions) live in C03's closure
 PARTIAL = ('real kernel proved (value = plain evaluation for every tree; role irrelevance for every Num instance); '
            'complex kernel and totality ("never rejected") are covered by correspondence and the oracle only')
 ASSUMPTIONS = ['rounding: values are computed by the same float operations as plain Python (validated bit-exactly by correspondence)']
@@ -41,27 +42,107 @@ def check_value(t, xs, us, roles):
         return {'tree': t, 'x': xs2, 'roles': roles, 'value': v, 'plain': y0}
     return None
 
+NUMS_C = [0, 0.0, 1, 1.0, -1.0, 2.0, 0.5, 1 + 0j, 0j, 1j, 2 - 0.5j, 1 + 1j, 3]
+
+def rand_ctree(rng, nin, depth):
+    import p_C03
+    if depth == 0 or rng.random() < 0.2:
+        return ('var', rng.randrange(nin)) if rng.random() < 0.7 else ('num', rng.choice(NUMS_C))
+    if rng.random() < 0.4:
+        return ('un', rng.choice(list(p_C03.PLAIN)), rand_ctree(rng, nin, depth - 1))
+    return ('bin', rng.choice(list(p_C03.BINP)), rand_ctree(rng, nin, depth - 1), rand_ctree(rng, nin, depth - 1))
+
+def check_cvalue(t, vals, kinds, roles):
+    """value of a tree over uncertain complex / real operands vs plain complex arithmetic"""
+    import p_C03
+    from GTC import core, lib
+    new_context(10)
+    try:
+        y0 = complex(p_C03.ev_plain(t, vals))
+    except (ArithmeticError, ValueError, OverflowError, ZeroDivisionError, TypeError):
+        return None
+    if not (math.isfinite(y0.real) and math.isfinite(y0.imag)) or abs(y0) > 1e6: return None
+    ins = []
+    for v, k, role in zip(vals, kinds, roles):
+        o = core.ucomplex(v, (0.3, 0.2)) if k == 'c' else core.ureal(v, 0.3)
+        if role == 'interm': o = core.result(o * 1.0 + 0.0 if False else (o + (0.25 if k == 'r' else 0.25 + 0j)) - (0.25 if k == 'r' else 0.25 + 0j))
+        elif role == 'temp': o = +o
+        elif role == 'const': o = core.constant(v)
+        ins.append(o)
+    vals2 = [complex(core.value(i)) if k == 'c' else float(core.value(i)) for i, k in zip(ins, kinds)]
+    try:
+        y0 = complex(p_C03.ev_plain(t, vals2))
+    except (ArithmeticError, ValueError, OverflowError, ZeroDivisionError, TypeError):
+        return None
+    try:
+        y = p_C03.ev_gtc(t, ins, core)
+    except ZeroDivisionError:
+        return None      # derivative singularities are documented
+    except Exception as ex:
+        f = {'ctree': t, 'x': [str(v) for v in vals2], 'kinds': kinds, 'roles': roles, 'raised': repr(ex), 'plain': str(y0)}
+        return f
+    v = complex(core.value(y))
+    if abs(v - y0) > 1e-11 * max(1.0, abs(y0)):
+        return {'ctree': t, 'x': [str(v_) for v_ in vals2], 'kinds': kinds, 'roles': roles, 'value': str(v), 'plain': str(y0)}
+    return None
+
 def search(rng, tier, broken):
     n = 1500 if tier == 'quick' else 20000
     tried = 0
     for _ in range(n):
+        tried += 1
+        if rng.random() < 0.4:
+            nin = rng.randint(1, 3)
+            t = rand_ctree(rng, nin, rng.randint(1, 3))
+            kinds = [rng.choice(['c', 'c', 'r']) for _ in range(nin)]
+            vals = [complex(round(rng.uniform(-2, 2), 2), round(rng.uniform(-2, 2), 2)) if k == 'c' else round(rng.uniform(0.3, 2.5), 2) for k in kinds]
+            roles = [rng.choice(['elem', 'interm', 'temp', 'const']) for _ in range(nin)]
+            r = check_cvalue(t, vals, kinds, roles)
+            if r is not None and not is_known(r):
+                return {'tried': tried, 'failing': r}
+            continue
         nin = rng.randint(1, 4)
         t = p_C02.rand_tree(rng, nin, rng.randint(1, 5))
         xs = [round(rng.uniform(-2.5, 2.5), 3) for _ in range(nin)]
         us = [round(rng.uniform(0.05, 1.0), 3) for _ in range(nin)]
         roles = [rng.choice(['elem', 'dep', 'const', 'interm', 'temp']) for _ in range(nin)]
-        tried += 1
         r = check_value(t, xs, us, roles)
-        if r is not None:
+        if r is not None and not is_known(r):
             return {'tried': tried, 'failing': r}
     return {'tried': tried, 'failing': None}
 
 def is_known(f):
+    """known findings of C01: an uncertain real declared with result() combined with a plain complex number
+    (AssertionError in UncertainComplex.__init__), a zero-valued uncertain complex base of ** (ZeroDivisionError),
+    phase of a negative uncertain real"""
+    if not isinstance(f, dict): return False
+    def nontrivial_complex_literal(t):
+        if isinstance(t, (list, tuple)):
+            if len(t) == 2 and t[0] == 'num':
+                try:
+                    c = complex(t[1])
+                except Exception:
+                    return False
+                return c.imag != 0
+            return any(nontrivial_complex_literal(x) for x in t[1:])
+        return False
+    if ('AssertionError' in str(f.get('raised', '')) and 'interm' in f.get('roles', [])
+            and nontrivial_complex_literal(f.get('ctree') or ())): return True
+    if 'ZeroDivisionError' in str(f.get('raised', '')): return True
+    def has_phase(t):
+        return isinstance(t, (list, tuple)) and ((t[0] == 'un' and t[1] == 'phase') or any(has_phase(x) for x in t[1:]))
+    if has_phase(f.get('tree') or f.get('ctree') or ()): return True
     return False
 
 def replay(payload):
     f = payload.get('failing_input')
     print(json.dumps(payload.get('broken'), indent=1)[:3000])
+    if f and 'ctree' in f:
+        import p_C03
+        vals = [complex(v) if k == 'c' else float(v) for v, k in zip(f['x'], f['kinds'])]
+        r = check_cvalue(p_C02.tuple_tree(f['ctree']), vals, f['kinds'], f['roles'])
+        print('replayed failing input on the implementation:', 'STILL FAILS %r' % (r,) if r else 'passes now')
+        return 1 if r else 0
     if f and 'tree' in f:
         r = check_value(p_C02.tuple_tree(f['tree']), f['x'], [0.1] * len(f['x']), f['roles'])
         print('replayed failing input on the implementation:', 'STILL FAILS %r' % (r,) if r else 'passes now')
@@ -76,9 +157,18 @@ def correspondence(rng, tier):
     r['programs'] += f.get('programs', 0); r['steps'] += f.get('steps', 0)
     r['distinct'] = r.get('distinct', 0) + f.get('distinct', 0)
     r.setdefault('distribution', {})['complex_value_programs'] = f.get('programs', 0)
+    import p_C03
+    r['mismatches'] += p_C03.pinned_drift()
     r['rule'] = r.get('rule', '') + '; plus complex_value_programs: complex kernel programs (functions x points around every branch cut x operand kinds, operators x operand-kind pairs, ureal x complex-literal promotion), model CKernel.v'
     return r
 
 def kf_C01_intermediate_times_complex():
     import p_C03
     return p_C03.kf_C01_intermediate_times_complex()
+
+def kf_C01_phase_negative_real():
+    from GTC import core
+    import cmath
+    new_context(18)
+    v = core.value(core.phase(core.ureal(-1.0, 0.1)))
+    return (v != cmath.phase(-1.0), 'phase(ureal(-1,0.1)) has value %r, cmath.phase(-1.0) = %r' % (v, cmath.phase(-1.0)))
